@@ -17,7 +17,8 @@ RULE = ("argument vectors = every vector within <=1 (quick) / <=2 (thorough) dev
         "(status!=0, no wallet token on stdout, directory unchanged) or SERVED (status 0, JSON == library API for the same inputs, "
         "reference paranoia filter applied, rows BIP44-shaped, nothing pre-existing modified); vectors made only of clearly good values must be SERVED, vectors containing a "
         "clearly bad value must be REFUSED. non-trivial = a verdict was reached by comparing with the API / snapshots; distinct = "
-        "distinct argv")
+        "distinct argv"
+        "; --paranoia combined with every interval and account value (stdout and file) for two sub-commands; accounts whose extended private key text contains a schema field name; output compared one-sidedly (every field of the API result present and equal; a paranoia run may not carry any string the filter removes)")
 
 MN12 = "legal winner thank year wave sausage worth useful legal winner thank yellow"
 MN24 = "letter advice cage absurd amount doctor acoustic avoid letter advice cage absurd amount doctor acoustic avoid letter advice cage absurd amount doctor acoustic bless"
